@@ -24,6 +24,7 @@ func init() {
 			{ID: "C05.R6", Floor: 1, Doc: "authenticator returned by Challenge is nil-checked before a method is invoked on it", Run: c05r6},
 			{ID: "C05.R9", Floor: 3, Doc: "pointer locals that start nil are assigned or nil-checked on every path before a field is read through them (response handling in the root package)", Run: c05r9},
 			{ID: "C05.R8", Floor: 20, Doc: "goroutine roots census: go statements whose callee parses network data run under recover or reach only rule-checked code", Run: c05r8},
+			{ID: "C05.R10", Floor: 1, Doc: "the header pointer readFrame installs on success is dereferenced only where readFrame is known to have succeeded", Run: c05r10},
 		},
 		Variants: []Variant{{Name: "linux/386", GOARCH: "386"}},
 	})
@@ -1127,4 +1128,78 @@ func nonNegAtCallSites(p *Program, fi *FuncInfo, sz ast.Expr) bool {
 		})
 	}
 	return nsites > 0 && okAll
+}
+
+// c05r10: framer.header is nil until readFrame has read and decoded a whole body. A function that calls readFrame on
+// a framer and then reads through that framer's header must do so only where the error of that call is known to be
+// nil (a malformed or oversized frame makes readFrame fail without setting the header: dereferencing it crashes the
+// reader goroutine instead of handing the error to the waiting caller).
+func c05r10(p *Program, r *Report) {
+	hdr := p.Field("framer", "header")
+	n := 0
+	p.forEachFunc(false, func(fi *FuncInfo) {
+		if fi.Pkg != p.Root || fi.Decl.Body == nil {
+			return
+		}
+		info := fi.Pkg.TypesInfo
+		// readFrame calls: framer text -> error variable
+		errOf := map[string]string{}
+		var calls []*ast.CallExpr
+		for _, c := range callsIn(fi.Decl.Body) {
+			if isCallTo(info, c, "(*framer).readFrame") {
+				if rx := recvExpr(c); rx != nil {
+					errOf[exprStr(ast.Unparen(rx))] = resultVarOf(p, c, 0)
+					calls = append(calls, c)
+				}
+			}
+		}
+		if len(calls) == 0 {
+			return
+		}
+		g := p.GraphOf(fi)
+		facts := g.GuardFacts()
+		inspectNoLit(fi.Decl.Body, func(x ast.Node) bool {
+			sel, ok := x.(*ast.SelectorExpr)
+			if !ok {
+				return true
+			}
+			inner, ok := ast.Unparen(sel.X).(*ast.SelectorExpr)
+			if !ok || fieldOf(info, inner) != hdr {
+				return true
+			}
+			fr := exprStr(ast.Unparen(inner.X))
+			ev, has := errOf[fr]
+			if !has {
+				return true
+			}
+			// only uses after a readFrame call
+			after := false
+			for _, c := range calls {
+				if sel.Pos() > c.End() {
+					after = true
+				}
+			}
+			if !after {
+				return true
+			}
+			n++
+			f, _ := facts.Before(p.stmtOf(sel, fi))
+			okNil := false
+			if ev != "" && ev != "_" {
+				if v, known := f.KnownStr(ev + " == nil"); known && v {
+					okNil = true
+				}
+			}
+			if v, known := f.KnownStr(fr + ".header == nil"); known && !v {
+				okNil = true
+			}
+			r.Check(okNil, sel, fi.Name+" reads "+exprStr(sel)+" only after a successful readFrame", "readFrame's error known nil (or header known non-nil)",
+				exprStr(sel)+" is read on a path where "+fr+".readFrame may have failed: the header pointer is only set on success, so a frame that cannot be read (oversized length, compressed body without a compressor, decode error) makes this a nil dereference in the goroutine that reads the connection")
+			return true
+		})
+	})
+	if n == 0 {
+		// nothing dereferences the header after readFrame in the function that called it: fine, but say so
+		r.OK(nil, "no function reads framer.header after calling readFrame on it", "census: 0 uses")
+	}
 }
